@@ -181,6 +181,9 @@ func (e *mexprIn) textL(l layoutIn) string {
 		if e.Bool {
 			op += " bool"
 		}
+		if e.Mod != nil {
+			op += " " + e.Mod.text()
+		}
 		side := func(x *mexprIn) string {
 			if x.T == "binop" {
 				return "(" + x.textL(l) + ")"
@@ -188,6 +191,8 @@ func (e *mexprIn) textL(l layoutIn) string {
 			return x.textL(l)
 		}
 		return side(e.A) + " " + op + " " + side(e.B)
+	case "lrepl":
+		return "label_replace(" + e.E.textL(l) + ", " + strconv.Quote(S(e.Dst)) + ", " + strconv.Quote(S(e.Repl)) + ", " + strconv.Quote(S(e.Src)) + ", " + strconv.Quote(S(e.Regex)) + ")"
 	}
 	return e.text()
 }
@@ -325,12 +330,23 @@ func mutate(in *parseIn, q string) (string, bool) {
 		return q + " | label_format d=\"t\", e=a, d=\"u\"", true
 	case "empty_selector_matcher":
 		return strings.Replace(q, "{", "{,", 1), strings.Contains(q, "{")
-	case "quantile_no_param", "param_not_allowed", "topk_no_param", "topk_zero", "sort_grouping", "range_grouping", "unwrap_missing", "unwrap_forbidden", "missing_range":
+	case "quantile_no_param", "param_not_allowed", "topk_no_param", "topk_zero", "sort_grouping", "range_grouping", "unwrap_missing", "unwrap_forbidden", "missing_range",
+		"lrepl_bad_regex", "lrepl_three_args", "lrepl_bare_arg", "on_without_labels", "group_without_on":
 		if in.Kind != "metric" {
 			return q, false
 		}
 		base := "{a=\"b\"}"
 		switch in.Mut {
+		case "lrepl_bad_regex":
+			return "label_replace(" + q + ", \"d\", \"$1\", \"s\", \"(\")", true
+		case "lrepl_three_args":
+			return "label_replace(" + q + ", \"d\", \"$1\", \"s\")", true
+		case "lrepl_bare_arg":
+			return "label_replace(" + q + ", d, \"$1\", \"s\", \"(.*)\")", true
+		case "on_without_labels":
+			return "(" + q + ") / on count_over_time(" + base + " [5s])", true
+		case "group_without_on":
+			return "(" + q + ") / group_left count_over_time(" + base + " [5s])", true
 		case "quantile_no_param":
 			return "quantile_over_time(" + base + " | unwrap v [5s])", true
 		case "param_not_allowed":
@@ -584,7 +600,15 @@ func wireExpr(e logql.Expr) F {
 		}
 		return F{"t": "vecagg", "op": e.Op.String(), "k": k, "grp": wireGrp(e.Grouping), "e": wireExpr(e.Expr)}
 	case *logql.BinOpExpr:
-		return F{"t": "binop", "op": wireOp(e.Op), "bool": e.Modifier.ReturnBool, "a": wireExpr(e.Left), "b": wireExpr(e.Right)}
+		m := e.Modifier
+		return F{"t": "binop", "op": wireOp(e.Op), "bool": m.ReturnBool, "a": wireExpr(e.Left), "b": wireExpr(e.Right),
+			"mod": F{"op": m.Op, "labels": wireLabels(m.OpLabels), "group": m.Group, "include": wireLabels(m.Include)}}
+	case *logql.LabelReplaceExpr:
+		re := ""
+		if e.Re != nil {
+			re = e.Re.String()
+		}
+		return F{"t": "lrepl", "e": wireExpr(e.Expr), "dst": B(e.DstLabel), "repl": B(e.Replacement), "src": B(e.SrcLabel), "regex": B(e.Regex), "re": B(re)}
 	case *logql.LiteralExpr:
 		if math.IsNaN(e.Value) {
 			return F{"t": "lit", "v": []int{0, 0}}
@@ -600,7 +624,8 @@ func wireExpr(e logql.Expr) F {
 
 var parseMuts = []string{"drop_close_brace", "drop_close_paren", "drop_close_bracket", "double_pipe", "trailing_op", "trailing_junk", "unterminated_string",
 	"bad_regex", "bad_label_regex", "unwrap_in_log", "dup_label_format", "dup_label_format_mixed", "dup_label_format_mixed2", "dup_label_format_tmpl", "empty_selector_matcher", "quantile_no_param", "param_not_allowed", "topk_no_param",
-	"topk_zero", "sort_grouping", "range_grouping", "unwrap_missing", "unwrap_forbidden", "missing_range"}
+	"topk_zero", "sort_grouping", "range_grouping", "unwrap_missing", "unwrap_forbidden", "missing_range",
+	"lrepl_bad_regex", "lrepl_three_args", "lrepl_bare_arg", "on_without_labels", "group_without_on"}
 
 func (famParse) Gen(r *rand.Rand, n int, _ map[string]string) []any {
 	out := make([]any, 0, n)
@@ -635,6 +660,12 @@ func (famParse) Gen(r *rand.Rand, n int, _ map[string]string) []any {
 			_, e, _ := genBinOpCase(r)
 			in.Expr = &e
 		}
+		if in.Kind == "metric" {
+			decorateParseExpr(r, in.Expr, 0)
+			if r.Intn(8) == 0 {
+				in.Expr = genLabelReplace(r, in.Expr)
+			}
+		}
 		// literal values whose first or last byte is a quote or a backslash (both quoting styles must keep them)
 		edgy := []string{"\"error\"", "\"", "x\"", "\"x", "a\\b", "\\", "\"\"", "'\"'", "\\\""}
 		for k := range in.Stages {
@@ -653,4 +684,58 @@ func (famParse) Gen(r *rand.Rand, n int, _ map[string]string) []any {
 		out = append(out, in)
 	}
 	return out
+}
+
+// decorateParseExpr gives some binary operations between two vectors a vector-matching modifier (the parser keeps them;
+// the engine refuses to evaluate them, so only C05 sees them) and wraps some operands in label_replace.
+func decorateParseExpr(r *rand.Rand, e *mexprIn, depth int) {
+	if e == nil {
+		return
+	}
+	switch e.T {
+	case "binop":
+		if r.Intn(3) == 0 {
+			names := []string{"app", "zone", "k", "a", "level"}
+			ls := func(n int) IntsList {
+				out := IntsList{}
+				for i := 0; i < n; i++ {
+					out = append(out, B(pick(r, names)))
+				}
+				return out
+			}
+			m := &modIn{Op: []string{"on", "ignoring"}[r.Intn(2)], Labels: ls(r.Intn(3)), Include: IntsList{}}
+			if r.Intn(2) == 0 {
+				m.Group = []string{"left", "right"}[r.Intn(2)]
+				switch r.Intn(3) {
+				case 0:
+					m.Include = ls(1 + r.Intn(2))
+				case 1:
+					m.EmptyParens = 1
+				}
+			}
+			e.Mod = m
+		}
+		for _, side := range []**mexprIn{&e.A, &e.B} {
+			decorateParseExpr(r, *side, depth+1)
+			if (*side).T != "lit" && depth < 2 && r.Intn(10) == 0 {
+				*side = genLabelReplace(r, *side)
+			}
+		}
+	case "vecagg":
+		decorateParseExpr(r, e.E, depth+1)
+		if depth < 2 && r.Intn(10) == 0 {
+			e.E = genLabelReplace(r, e.E)
+		}
+	case "lrepl":
+		decorateParseExpr(r, e.E, depth+1)
+	}
+}
+
+func genLabelReplace(r *rand.Rand, inner *mexprIn) *mexprIn {
+	return &mexprIn{T: "lrepl", E: inner, Sel: []matcherIn{}, Stages: []stageIn{}, Param: Ints{0, 1}, V: Ints{0, 1},
+		Grp: grpIn{Mode: "none", Labels: IntsList{}},
+		Dst:   B(pick(r, []string{"dst", "app", "zone", "a b", ""})),
+		Repl:  B(pick(r, []string{"$1", "${1}-x", "fixed", "", "$2:$1", "a\"b"})),
+		Src:   B(pick(r, []string{"app", "src", "zone", ""})),
+		Regex: B(pick(r, []string{"(.*)", "a(b|c)", "(.+)-(.+)", "", "x", "^y$", "(?i)z"}))}
 }
